@@ -258,6 +258,9 @@ func (x *Extractor) walkAt(fn *ssa.Function, e *env, mf *MethodFacts, via []stri
 					name := structFieldName(fa.X.Type(), fa.Field)
 					mf.FieldsSet[name] = append(mf.FieldsSet[name], describeVal(x.eval(ins.Val, e)))
 				}
+				if g, ok := ins.Addr.(*ssa.Global); ok && g.Pkg == fn.Pkg {
+					mf.FieldsSet[g.Name()] = append(mf.FieldsSet[g.Name()], describeVal(x.eval(ins.Val, e)))
+				}
 			case *ssa.UnOp:
 				if fa, ok := ins.X.(*ssa.FieldAddr); ok && ins.Op == token.MUL && x.isConvPtr(fa.X.Type()) {
 					mf.FieldsRead[structFieldName(fa.X.Type(), fa.Field)] = true
@@ -328,6 +331,9 @@ func (x *Extractor) walkEffects(fn *ssa.Function, e *env, mf *MethodFacts, seen 
 				if fa, ok := ins.Addr.(*ssa.FieldAddr); ok && x.isConvPtr(fa.X.Type()) {
 					name := structFieldName(fa.X.Type(), fa.Field)
 					mf.FieldsSet[name] = append(mf.FieldsSet[name], describeVal(x.eval(ins.Val, e)))
+				}
+				if g, ok := ins.Addr.(*ssa.Global); ok && g.Pkg == fn.Pkg {
+					mf.FieldsSet[g.Name()] = append(mf.FieldsSet[g.Name()], describeVal(x.eval(ins.Val, e)))
 				}
 			case *ssa.UnOp:
 				if fa, ok := ins.X.(*ssa.FieldAddr); ok && ins.Op == token.MUL && x.isConvPtr(fa.X.Type()) {
